@@ -555,6 +555,13 @@ public:
     double* SX=buffer+offset;
     double alpha;
     double range = t_end - t_start;
+    //The averages (sin(alpha*t_end)-sin(alpha*t_start))/(alpha*range) and
+    //(cos(alpha*t_start)-cos(alpha*t_end))/(alpha*range) are evaluated in the
+    //product form cos|sin(alpha*t_mid)*sin(alpha*h)/(alpha*h), which does not
+    //cancel for nearly coincident levels or intervals far from the origin.
+    const double t_mid = t_start + 0.5*range;
+    const double half_range = 0.5*range;
+    auto sinc=[](double x)->double{ return(x==0 ? 1. : sin(x)/x); };
 #include "SU_inc/PreEvolutionSelectAvgRange.txt"
     //For coincident levels alpha vanishes and the expressions above evaluate
     //0/0; the interval averages of cos(0) and sin(0) are 1 and 0.
